@@ -76,6 +76,19 @@ def binop(case):
         got, exp = a - b, A - B
     elif op == "div":
         got, exp = a / b, A / complex(coef(case["b"]["n"]))
+    elif op in ("iadd", "isub", "imul"):
+        # augmented assignment through a second name: `x = a; x += b` - x is the result, a must stay what it was
+        x = a
+        if op == "iadd":
+            x += b
+            exp = A + B
+        elif op == "isub":
+            x -= b
+            exp = A - B
+        else:
+            x *= b
+            exp = A @ B
+        got = x
     else:
         raise ValueError(op)
     G = impl_matrix(got)
@@ -104,7 +117,7 @@ def far_case(case):
     got, exp = (a * b, rp.map_mul(A, B)) if op == "mul" else (a + b, rp.map_add(A, B)) if op == "add" else (a - b, rp.map_add(A, B, -1))
     G = rp.coeff_map([(c, {str(q): p_ for q, p_ in ops.items()}) for c, ops in op_terms(got)])
     keys = set(G) | set(exp)
-    ok = all(abs(G.get(k_, 0) - exp.get(k_, 0)) <= ATOL for k_ in keys)
+    ok = all(abs(G.get(k_, 0) - exp.get(k_, 0)) <= ATOL * max(1.0, abs(exp.get(k_, 0))) for k_ in keys)
     A2 = rp.coeff_map([(c, {str(q): p_ for q, p_ in ops.items()}) for c, ops in op_terms(a)]) if not isinstance(a, (int, float, complex)) else A
     ok2 = all(abs(A2.get(k_, 0) - A.get(k_, 0)) <= ATOL for k_ in set(A) | set(A2))
     r = {"ok": bool(ok and ok2), "nt": True, "out": op}
@@ -319,7 +332,15 @@ def run(run):
             for op in ("mul", "add", "sub"):
                 cases.append({"op": op, "a": {"t": t}, "b": {"s": s}})
                 cases.append({"op": op, "a": {"s": s}, "b": {"t": t}})
-    secs.append(Section("mixed", cases, binop, desc="term (op) sum and sum (op) term"))
+    for t in term_pool()[:6]:
+        for s_ in Pm[:25]:
+            for op in ("iadd", "isub", "imul"):
+                cases.append({"op": op, "a": {"t": t}, "b": {"s": s_}})
+                cases.append({"op": op, "a": {"s": s_}, "b": {"t": t}})
+                cases.append({"op": op, "a": {"s": s_}, "b": {"n": [0.5, 2]}})
+    cases += [{"op": op, "a": {"s": a_}, "b": {"s": b_}} for a_ in Pm[:25] for b_ in Pm[:25:3] for op in ("iadd", "isub", "imul")]
+    cases += [{"op": op, "a": {"t": a_}, "b": {"t": b_}} for a_ in term_pool() for b_ in term_pool() for op in ("iadd", "isub", "imul")]
+    secs.append(Section("mixed", cases, binop, desc="term (op) sum and sum (op) term; augmented assignments through a second name"))
     # --- nearly equal operands: coefficients differing by 1e-7 .. 1e-5 relative (well above the 1e-8 zero tolerance, below numpy's default 1e-5
     #     closeness): a - b and a + (-b) must still denote the (small, non-zero) matrix difference
     cases = []
@@ -355,6 +376,11 @@ def run(run):
     many2 = [[0.5 + i, {str(10 + i): "X"}] for i in range(0, 70, 7)]
     cases += [{"op": op, "a": {"s": many}, "b": b} for op in ("mul", "add", "sub") for b in ({"s": many2}, T(2.0, {"10": "Y"}), {"s": many[::-1]}, {"n": 3})]
     cases += [{"op": op, "a": b, "b": {"s": many}} for op in ("mul", "add", "sub") for b in ({"s": many2}, T(2.0, {"10": "Y"}), {"n": [0, 2]})]
+    # exact integers: Python-int scalars and all-integer coefficients whose products exceed 2^63 (a 64-bit integer array would wrap), on either side
+    bigs = [{"n": 10 ** 10}, {"n": 2 ** 40}, {"n": -3 * 10 ** 12}, {"n": 7}]
+    isums = [{"s": [[10 ** 10, {"0": "X"}], [7, {"1": "Z"}]]}, {"s": [[2 ** 62, {"8": "Y"}], [-(2 ** 61), {"8": "Z", "0": "X"}], [3, {}]]}, {"t": [10 ** 15, {"64": "Z"}]}, {"s": [[3, {"0": "Z"}], [4, {"1": "Z"}]]}]
+    cases += [{"op": "mul", "a": n_, "b": o_} for n_ in bigs for o_ in isums] + [{"op": "mul", "a": o_, "b": n_} for n_ in bigs for o_ in isums]
+    cases += [{"op": "mul", "a": a_, "b": b_} for a_ in isums for b_ in isums] + [{"op": op, "a": n_, "b": o_} for op in ("add", "sub") for n_ in bigs[:2] for o_ in isums]
     secs.append(Section("far_qubits", cases, far_case, desc="all ordered pairs of %d strings on qubits {0,7,8,9,63,64,100,1000} and sums of 70 terms: * + - judged by coefficient maps" % len(fstr)))
     # --- simplify: ordered lists (order matters for like-term merging)
     pool = term_pool()
